@@ -253,7 +253,7 @@ fn eval<F: AdFrame>(n: &mut Node, lv: &mut Leaves<F>, mc: &mut ModelCalls<F>, ob
             let f = match m.frames {
                 Some(e) if m.cur >= e => {
                     obs.fault(F_OVERRUN);
-                    F::EQUILIBRIUM
+                    F::eq_ref()
                 }
                 _ => F::leaf(m.id, m.cur),
             };
@@ -278,7 +278,7 @@ fn eval<F: AdFrame>(n: &mut Node, lv: &mut Leaves<F>, mc: &mut ModelCalls<F>, ob
             let x = eval(a, lv, mc, obs);
             let m = &mut lv.sgn_m[*j];
             let y = match m.frames {
-                Some(e) if m.cur >= e => <F::SF as Frame>::EQUILIBRIUM,
+                Some(e) if m.cur >= e => F::seq_ref(),
                 _ => F::sleaf(m.id, m.cur),
             };
             m.cur += 1;
@@ -288,7 +288,7 @@ fn eval<F: AdFrame>(n: &mut Node, lv: &mut Leaves<F>, mc: &mut ModelCalls<F>, ob
             let x = eval(a, lv, mc, obs);
             let m = &mut lv.flt_m[*j];
             let y = match m.frames {
-                Some(e) if m.cur >= e => <F::FF as Frame>::EQUILIBRIUM,
+                Some(e) if m.cur >= e => F::feq_ref(),
                 _ => F::fleaf(m.id, m.cur),
             };
             m.cur += 1;
@@ -311,7 +311,7 @@ fn eval<F: AdFrame>(n: &mut Node, lv: &mut Leaves<F>, mc: &mut ModelCalls<F>, ob
                 if *k == 0 {
                     obs.fault(F_DELAY_BOUNDARY);
                 }
-                F::EQUILIBRIUM
+                F::eq_ref()
             } else {
                 eval(a, lv, mc, obs)
             }
@@ -793,7 +793,7 @@ pub fn run_tree<F: AdFrame>(flavor: Flavor, src: &mut Source, obs: &mut Observer
                             0 => {
                                 let m = lv.main_m[i];
                                 let want = match m.frames {
-                                    Some(e) if m.cur >= e => F::EQUILIBRIUM,
+                                    Some(e) if m.cur >= e => F::eq_ref(),
                                     _ => F::leaf(m.id, m.cur),
                                 };
                                 let got = lv.main[i].next();
@@ -1174,7 +1174,7 @@ fn lift_op<F: AdFrame>(op: Op, obs: &mut Observer) -> Result<(), Violation> {
             src_frames.iter().map(|f| f.offset_ref(F::sparam(64))).collect(),
         ),
         2 => {
-            let mut w = vec![F::EQUILIBRIUM; k as usize];
+            let mut w = vec![F::eq_ref(); k as usize];
             w.extend(src_frames.iter().copied());
             (signal::lift(it, |s| s.delay(k as usize)).collect(), w)
         }
@@ -1289,8 +1289,8 @@ fn sweep_stack_op<F: AdFrame>(op: Op, obs: &mut Observer) -> Result<(), Violatio
     let (o1, o2) = (offs[q1 as usize], offs[q2 as usize]);
     let id = 2 + 16 * 5; // leaf amplitude < 1/32
     let len = 5u64;
-    let src_f = |i: u64| if i < len { F::leaf(id, i) } else { F::EQUILIBRIUM };
-    let sgn_f = |i: u64| if i < len + 1 { F::sleaf(id + 1, i) } else { <F::SF as dasp_frame::Frame>::EQUILIBRIUM };
+    let src_f = |i: u64| if i < len { F::leaf(id, i) } else { F::eq_ref() };
+    let sgn_f = |i: u64| if i < len + 1 { F::sleaf(id + 1, i) } else { F::seq_ref() };
     let (main, main_pulls) = ProbeSignal::with(id, Some(len), F::leaf as fn(u32, u64) -> F);
     let (sgn, sgn_pulls) = ProbeSignal::with(id + 1, Some(len + 1), F::sleaf as fn(u32, u64) -> F::SF);
     let (flt, _) = ProbeSignal::with(3, None, F::fleaf as fn(u32, u64) -> F::FF);
@@ -1307,7 +1307,7 @@ fn sweep_stack_op<F: AdFrame>(op: Op, obs: &mut Observer) -> Result<(), Violatio
     let delay = (q1 % 3) as u64;
     for n in 0..7u64 {
         let want: F = if n < delay {
-            F::EQUILIBRIUM
+            F::eq_ref()
         } else {
             let i = n - delay;
             src_f(i)
@@ -1328,6 +1328,31 @@ fn sweep_stack_op<F: AdFrame>(op: Op, obs: &mut Observer) -> Result<(), Violatio
         check_eq!(obs, (main_pulls.get(), sgn_pulls.get()), (pulled, pulled), "sweep.pulls", "{}: source pulls after frame {}", F::NAME, n);
     }
     let _ = g2;
+    // second stack: frames made of the format's edge values (minimum, maximum, around equilibrium,
+    // powers of two) through adaptors that keep every one of them in range: unit gain, zero offset, a
+    // clip that only touches the minimum, multiplication by ones, addition of zeros, halving
+    let eid = 7 + (q1 * 6 + q2) as u32;
+    let (edge, edge_pulls) = ProbeSignal::with(eid, Some(len + 2), F::edge_leaf as fn(u32, u64) -> F);
+    let half = F::fparam(4);
+    let mut e = edge
+        .scale_amp(F::fparam(8))
+        .offset_amp(F::sparam(0))
+        .clip_amp(F::smax())
+        .mul_amp(signal::gen(F::ones))
+        .add_amp(signal::gen(F::zeros))
+        .scale_amp(half);
+    for n in 0..len + 2 {
+        let want = F::edge_leaf(eid, n)
+            .scale_ref(F::fparam(8))
+            .offset_ref(F::sparam(0))
+            .clip_ref(F::smax())
+            .mul_ref(F::ones())
+            .add_ref(F::zeros())
+            .scale_ref(half);
+        let got = e.next();
+        check_eq!(obs, got, want, "sweep.edge-frame", "{}: edge values {:?} through the unit / zero / half adaptors, frame {}", F::NAME, F::edge_leaf(eid, n), n);
+        check_eq!(obs, edge_pulls.get(), n + 1, "sweep.pulls", "{}: edge source pulls after frame {}", F::NAME, n);
+    }
     obs.probe(P_STATIC_STACK);
     Ok(())
 }
@@ -1343,7 +1368,7 @@ fn static_stack_op<F: AdFrame>(op: Op, obs: &mut Observer) -> Result<(), Violati
     let id = 2 + 16 * 5; // leaf amplitude < 1/32
     let len = 5u64;
     let mk = || ProbeSignal::with(id, Some(len), F::leaf as fn(u32, u64) -> F).0;
-    let src_f = |i: u64| if i < len { F::leaf(id, i) } else { F::EQUILIBRIUM };
+    let src_f = |i: u64| if i < len { F::leaf(id, i) } else { F::eq_ref() };
     let n_pull = 8u64;
     macro_rules! run {
         ($sig:expr, $f:expr, $delay:expr) => {{
@@ -1370,7 +1395,7 @@ fn static_stack_op<F: AdFrame>(op: Op, obs: &mut Observer) -> Result<(), Violati
                         restored = true;
                     }
                 }
-                let want: F = if n < delay { F::EQUILIBRIUM } else { ($f)(src_f(n - delay)) };
+                let want: F = if n < delay { F::eq_ref() } else { ($f)(src_f(n - delay)) };
                 let exhausted = n >= delay + len;
                 check_eq!(obs, s.is_exhausted(), exhausted, "static.is_exhausted", "stack variant {} before frame {}{}", variant, n, if restored { " (after clone_from onto the frame-2 snapshot)" } else { "" });
                 let got = s.next();
@@ -1402,7 +1427,7 @@ fn static_stack_op<F: AdFrame>(op: Op, obs: &mut Observer) -> Result<(), Violati
             |f: F| f.scale_ref(F::fparam(g1)).offset_ref(F::sparam(o2)).scale_ref(F::fparam(g2)),
             0
         ),
-        5 => run!(mk().map(|f: F| f.reverse()).map(|f: F| f.select(F::EQUILIBRIUM)), |f: F| f.reverse().select(F::EQUILIBRIUM), 0),
+        5 => run!(mk().map(|f: F| f.reverse()).map(|f: F| f.select(F::eq_ref())), |f: F| f.reverse().select(F::eq_ref()), 0),
         6 => run!(
             mk().scale_amp_per_channel(F::fpc(q1)).scale_amp_per_channel(F::fpc(q2 + 9)),
             |f: F| f.mul_ref(F::fpc(q1)).mul_ref(F::fpc(q2 + 9)),
